@@ -29,6 +29,7 @@ IMPORTS = "From HS Require Import Base.Prelude C08.Model."
 LEVEL = "proof"
 
 END_NS = 10 ** 12
+COQ_FILES = ["C08/Model.v", "C08/Policies.v", "C08/PolicyThms.v", "C08/Pipeline.v", "C08/IndModel.v", "C08/IndThms.v", "C08/Props.v"]
 
 
 # --------------------------------------------------------------------------- items / policies
@@ -339,21 +340,44 @@ def oracle_policy(c, obs):
 
 
 # --------------------------------------------------------------------------- pipeline runs
-def gen_pipe(rng):
+def gen_stage(rng, first):
     p = gen_policy_cfg(rng)
     if rng.random() < 0.4:
         p = dict(kind="fifo", cap=rng.choice([None, None, 0, 1, 2, 3]))
-    worker = "server"
-    limit = rng.randint(1, 3)
-    times = rng.choice([[0], [0, 0, 5], [0, 5, 10, 10], [0, 1, 2, 3, 10]])
+    worker = rng.choice(["server", "server", "server", "shift", "reneg"])
+    st = dict(policy=p, worker=worker, limit=rng.randint(1, 3),
+              svc=[rng.choice([0, 1, 5, 10, 10]) for _ in range(rng.randint(1, 4))])
+    if worker == "shift":
+        bs = sorted(rng.sample([1, 2, 5, 10, 11, 20, 30], rng.choice([2, 4])))
+        st["shifts"] = [[bs[i], bs[i + 1], rng.randint(0, 3)] for i in range(0, len(bs), 2)]
+        st["default_capacity"] = rng.choice([0, 0, 1, 2])
+        st["svc"] = [rng.choice([1, 5, 10])]
+    return st
+
+
+def gen_pipe(rng):
+    stages = [gen_stage(rng, True)]
+    if rng.random() < 0.3:
+        stages.append(gen_stage(rng, False))
+    tick = 10 ** 9 if any(s["worker"] == "shift" for s in stages) or rng.random() < 0.15 else 1
+    times = rng.choice([[0], [0, 0, 5], [0, 5, 10, 10], [0, 1, 2, 3, 10], [0, 10, 20, 30]])
     n = rng.randint(1, 9)
     arrivals = []
     for i in range(n):
         t = rng.choice(times)
         it = gen_item(rng, i, t + rng.choice([0, 5, 20]))
         arrivals.append(dict(t=t, hops=rng.randint(0, 4), item=it, balk=rng.random() < 0.5))
-    svc = [rng.choice([0, 1, 5, 10, 10]) for _ in range(rng.randint(1, 4))]
-    return dict(policy=p, worker=worker, limit=limit, arrivals=arrivals, svc=svc, mode=rng.choice(["pre", "in"]))
+    return dict(stages=stages, tick=tick, arrivals=arrivals, mode=rng.choice(["pre", "in"]))
+
+
+def _norm_case(c):
+    """Corpus files may use the single-stage layout of the first version."""
+    if "stages" in c:
+        return c
+    c = dict(c)
+    c["stages"] = [dict(policy=c.pop("policy"), worker=c.pop("worker"), limit=c.pop("limit"), svc=c.pop("svc"))]
+    c.setdefault("tick", 1)
+    return c
 
 
 class _Meta:
@@ -363,11 +387,24 @@ class _Meta:
 def _meta(ev):
     m = _Meta()
     d = ev.context["metadata"]["item"]
-    m.id, m.prio, m.dl, m.flow = d["id"], d["prio"], d["dl"], d["flow"]
+    m.id, m.prio, m.dl, m.flow = d["id"], d["prio"], d["dl_ns"], d["flow"]
     return m
 
 
+def initial_limit(st):
+    if st["worker"] != "shift":
+        return st["limit"]
+    for a, b, cap in sorted(st["shifts"]):
+        if a <= 0 < b:
+            return cap
+    return st["default_capacity"]
+
+
 def impl_pipe(c):
+    from collections.abc import Generator
+
+    from happysimulator.components.industrial.reneging import RenegingQueuedResource
+    from happysimulator.components.industrial.shift_schedule import Shift, ShiftedServer, ShiftSchedule
     from happysimulator.components.queue import QueueDeliverEvent, QueueNotifyEvent, QueuePollEvent
     from happysimulator.components.server.server import Server
     from happysimulator.core.entity import Entity
@@ -376,14 +413,20 @@ def impl_pipe(c):
     from happysimulator.core.temporal import Duration, Instant
     from hsverif.util import run_bounded
 
+    c = _norm_case(c)
+    tick = c["tick"]
+
     class Lat:
         def __init__(self, seq):
             self.seq, self.i = list(seq), 0
 
-        def get_latency(self, now):
+        def next_ns(self):
             v = self.seq[self.i % len(self.seq)]
             self.i += 1
-            return Duration(v)
+            return v * tick
+
+        def get_latency(self, now):
+            return Duration(self.next_ns())
 
     class Relay(Entity):
         def __init__(self, name, nxt):
@@ -394,16 +437,34 @@ def impl_pipe(c):
             return [Event(time=self.now, event_type=e.event_type, target=self.nxt, context=e.context)]
 
     class Sink(Entity):
-        def __init__(self):
-            super().__init__("sink")
+        def __init__(self, name):
+            super().__init__(name)
             self.got = []
 
         def handle_event(self, e):
             self.got.append([self.now.nanoseconds, e.context["metadata"]["item"]["id"]])
 
+    class RenegSrv(RenegingQueuedResource):
+        def __init__(self, name, limit, lat, downstream, policy, reneged_target):
+            super().__init__(name, reneged_target=reneged_target, policy=policy)
+            self._active, self._limit, self._done, self._lat, self._down = 0, limit, 0, lat, downstream
+
+        def has_capacity(self):
+            return self._active < self._limit
+
+        def _handle_served_event(self, event):
+            self._active += 1
+            yield self._lat.next_ns() / 1e9
+            self._active -= 1
+            self._done += 1
+            return [Event(time=self.now, event_type=event.event_type, target=self._down, context=event.context)]
+
     def mk_event(a, heads):
-        return Event(time=Instant(a["t"]), event_type="req", target=heads[a["hops"]],
-                     context={"metadata": {"item": a["item"], "balk": a["balk"]}})
+        it = dict(a["item"])
+        it["dl_ns"] = it["dl"] * tick
+        return Event(time=Instant(a["t"] * tick), event_type="req", target=heads[a["hops"]],
+                     context={"metadata": {"item": it, "balk": a["balk"]},
+                              "patience_s": (it["dl"] - a["t"]) * tick / 1e9})
 
     class Injector(Entity):
         def __init__(self, arrivals, heads):
@@ -414,26 +475,66 @@ def impl_pipe(c):
             return [mk_event(a, self.heads) for a in self.arr]
 
     rand = _Rand()
-    clock = {}
-    pol = make_policy(c["policy"], _meta, lambda: clock["c"].now.nanoseconds, rand)
-    sink = Sink()
-    srv = Server("srv", concurrency=c["limit"], service_time=Lat(c["svc"]), queue_policy=pol, downstream=sink)
-    cm = srv._concurrency_model
+    sink = Sink("sink")
+    rsink = Sink("reneged")
+    ents = [sink, rsink]
+    logs, servers = [], []
+    nxt = sink
+    clockbox = {}
+    for si in reversed(range(len(c["stages"]))):
+        st = c["stages"][si]
+        pol = make_policy(st["policy"], _meta, lambda: clockbox["e"].now.nanoseconds, rand)
+        if st["worker"] == "server":
+            srv = Server(f"srv{si}", concurrency=st["limit"], service_time=Lat(st["svc"]), queue_policy=pol, downstream=nxt)
+            cm = srv._concurrency_model
 
-    def state():
-        return [srv._queue.depth, srv._queue.stats_accepted, srv._queue.stats_dropped, cm.active, cm.limit,
-                srv._requests_completed, srv._requests_rejected]
+            def state(srv=srv, cm=cm):
+                return [srv._queue.depth, srv._queue.stats_accepted, srv._queue.stats_dropped, cm.active, cm.limit,
+                        srv._requests_completed, srv._requests_rejected]
+        elif st["worker"] == "shift":
+            sched = ShiftSchedule([Shift(a * tick / 1e9, b * tick / 1e9, cap) for a, b, cap in st["shifts"]],
+                                  default_capacity=st["default_capacity"])
+            srv = ShiftedServer(f"srv{si}", sched, service_time=st["svc"][0] * tick / 1e9, downstream=nxt, policy=pol)
 
-    heads = {0: srv}
-    ents = [srv, sink]
-    prev = srv
+            def state(srv=srv):
+                return [srv._queue.depth, srv._queue.stats_accepted, srv._queue.stats_dropped, srv._active,
+                        srv._current_capacity, srv._processed, 0]
+        else:
+            srv = RenegSrv(f"srv{si}", st["limit"], Lat(st["svc"]), nxt, pol, rsink)
+
+            def state(srv=srv):
+                return [srv._queue.depth, srv._queue.stats_accepted, srv._queue.stats_dropped, srv._active, srv._limit,
+                        srv._done, srv._reneged]
+        log = []
+        _instrument(srv, pol, rand, log, state, QueuePollEvent, QueueNotifyEvent, QueueDeliverEvent, Generator)
+        logs.insert(0, log)
+        servers.insert(0, (srv, state))
+        ents.append(srv)
+        nxt = srv
+    srv0 = servers[0][0]
+    clockbox["e"] = srv0._queue
+    heads = {0: srv0}
+    prev = srv0
     for h in range(1, 5):
         r = Relay(f"r{h}", prev)
         heads[h] = r
         ents.append(r)
         prev = r
-    log = []
+    inj = Injector(c["arrivals"], heads)
+    ents.append(inj)
+    sim = Simulation(entities=ents, end_time=Instant(END_NS))
+    if c["mode"] == "pre":
+        for a in c["arrivals"]:
+            sim.schedule(mk_event(a, heads))
+    else:
+        sim.schedule(Event(time=Instant(0), event_type="kick", target=inj))
+    _, verdict = run_bounded(sim, wall_s=20.0)
+    return dict(logs=logs, sink=sink.got, reneged=rsink.got, verdict=verdict, final=[st() for _, st in servers])
 
+
+def _instrument(srv, pol, rand, log, state, QueuePollEvent, QueueNotifyEvent, QueueDeliverEvent, Generator):
+    """Record every handler invocation of one queue-fronted resource: queue, driver, worker
+    generator segments, completion hook, shift changes; with outputs and state afterwards."""
     def now():
         return srv._queue.now.nanoseconds
 
@@ -502,6 +603,10 @@ def impl_pipe(c):
     def w_logged(ev):
         x = _meta(ev).id
         g = w_orig(ev)
+        if not isinstance(g, Generator):
+            log.append(dict(t=now(), h="start", x=x, out=[], ret=True, st=state(), q=qsnap(),
+                            value=[e.event_type for e in (g or [])]))
+            return g
 
         def wrap():
             sent, seg = None, 0
@@ -518,17 +623,14 @@ def impl_pipe(c):
         return wrap()
 
     srv._worker.handle_event = w_logged
-    inj = Injector(c["arrivals"], heads)
-    ents.append(inj)
-    sim = Simulation(entities=ents, end_time=Instant(END_NS))
-    clock["c"] = srv._queue
-    if c["mode"] == "pre":
-        for a in c["arrivals"]:
-            sim.schedule(mk_event(a, heads))
-    else:
-        sim.schedule(Event(time=Instant(0), event_type="kick", target=inj))
-    _, verdict = run_bounded(sim, wall_s=20.0)
-    return dict(log=log, sink=sink.got, verdict=verdict, final=state(), heap_left=sim._event_heap.size())
+    if hasattr(srv, "_handle_shift_change"):
+        sc_orig = srv._handle_shift_change
+
+        def sc_logged():
+            r = sc_orig()
+            log.append(dict(t=now(), h="setlimit", n=srv._current_capacity, out=[], st=state(), q=qsnap()))
+            return r
+        srv._handle_shift_change = sc_logged
 
 
 def pev_term(o):
@@ -546,11 +648,10 @@ def pev_term(o):
     raise ValueError(f"unexpected output event {o}")
 
 
-def pipe_steps(c, obs):
-    """Merge the raw handler log into world labels: worker segments that return are followed
-    by their completion hook in the same engine step."""
+def pipe_steps(log):
+    """Merge the raw handler log of one resource into world labels: worker segments that
+    return are followed by their completion hook in the same engine step."""
     steps = []
-    log = obs["log"]
     i = 0
     while i < len(log):
         e = log[i]
@@ -563,6 +664,8 @@ def pipe_steps(c, obs):
             steps.append(dict(label=("fire", e["t"], ["notify"]), out=e["out"], st=e["st"], q=e["q"], t=e["t"]))
         elif h == "deliver":
             steps.append(dict(label=("fire", e["t"], ["deliver", e["x"]]), out=e["out"], st=e["st"], q=e["q"], t=e["t"]))
+        elif h == "setlimit":
+            steps.append(dict(label=("setlimit", e["n"]), out=[], st=e["st"], q=e["q"], t=e["t"]))
         elif h in ("start", "resume"):
             out = list(e["out"])
             st, q = e["st"], e["q"]
@@ -582,42 +685,54 @@ def pipe_steps(c, obs):
     return steps
 
 
+WKIND = {"server": "WServer", "shift": "WShift", "reneg": "WReneg"}
+
+
 def encode_pipe(c, obs):
-    w = pol_weights(c["policy"])
-    tr = []
-    for s in pipe_steps(c, obs):
-        lb = s["label"]
-        if lb[0] == "arrive":
-            lt = Ctor("LArrive", lb[1], item_term(lb[2], w))
-        else:
-            lt = Ctor("LFire", lb[1], pev_term(lb[2]))
-        tr.append((lt, [pev_term(o) for o in s["out"]], s["st"], (s["q"][0], s["q"][1], s["q"][2])))
-    kind = Raw("WServer" if c["worker"] == "server" else "WShift")
-    return term((kind, pol_term(c["policy"]), c["limit"], tr))
+    c = _norm_case(c)
+    out = []
+    for st, log in zip(c["stages"], obs["logs"]):
+        w = pol_weights(st["policy"])
+        tr = []
+        for s in pipe_steps(log):
+            lb = s["label"]
+            if lb[0] == "arrive":
+                it = dict(lb[2])
+                it["dl"] = it["dl_ns"]
+                lt = Ctor("LArrive", lb[1], item_term(it, w))
+            elif lb[0] == "setlimit":
+                lt = Ctor("LSetLimit", lb[1])
+            else:
+                lt = Ctor("LFire", lb[1], pev_term(lb[2]))
+            tr.append((lt, [pev_term(o) for o in s["out"]], s["st"], (s["q"][0], s["q"][1], s["q"][2])))
+        out.append((Raw(WKIND[st["worker"]]), pol_term(st["policy"]), initial_limit(st), tr))
+    return term(out)
 
 
-def oracle_pipe(c, obs):
-    """C08 on the implementation's run: ledger per offered item, in-service bound, no
-    stranding, nothing left behind when the run has drained."""
+def oracle_stage(st, steps, offered_in, sink_out, reneged_out, last):
+    """C08 on one resource's run: ledger per offered item, in-service bound, no stranding."""
     fails = []
-    if obs["verdict"] != "ok":
-        return [dict(clause="the run terminates", verdict=obs["verdict"])]
-    steps = pipe_steps(c, obs)
-    offered = [a["item"]["id"] for a in c["arrivals"]]
+    kind = st["worker"]
     refused, waiting, transit, service, done, disc, expired = set(), set(), set(), set(), [], [], set()
     seen = []
-    limit = c["limit"]
+    raised_while_waiting = False
+    prev_lim = None
+    dl_of = {}
     for idx, s in enumerate(steps):
         lb = s["label"]
         depth, acc, drp, act, lim, fin, rej = s["st"]
         held_now = set(s["q"][1])
         if lb[0] == "arrive":
             x = lb[2]["id"]
+            dl_of[x] = lb[2]["dl_ns"]
             seen.append(x)
             if x in held_now:
                 waiting.add(x)
             else:
                 refused.add(x)
+        elif lb[0] == "setlimit":
+            if prev_lim is not None and lb[1] > prev_lim and depth > 0:
+                raised_while_waiting = True
         else:
             ev = lb[2]
             if ev[0] == "poll":
@@ -632,12 +747,21 @@ def oracle_pipe(c, obs):
                 transit.discard(ev[1])
                 if s["started"]:
                     service.add(ev[1])
+                    if act > lim or len(service) > lim:
+                        fails.append(dict(clause="work in service never exceeds the concurrency limit", step=idx,
+                                          in_service=len(service), active=act, limit=lim, mechanism="over-dispatch",
+                                          what="a second poll issued while a delivery was in flight dispatches more items than the "
+                                               "worker has slots; the worker increments its active counter without a guard"))
                 else:
                     disc.append(ev[1])
+                    if kind == "reneg" and not s["t"] > dl_of[ev[1]]:
+                        fails.append(dict(clause="an item reneges only when it waited longer than its patience", step=idx, item=ev[1]))
+                if kind == "reneg" and s["started"] and s["t"] > dl_of[ev[1]]:
+                    fails.append(dict(clause="an item that waited longer than its patience is not served", step=idx, item=ev[1]))
             elif ev[0] == "cont":
                 service.discard(ev[1])
                 done.append(ev[1])
-        # every item seen so far is in exactly one class
+        prev_lim = lim
         classes = [refused, waiting, transit, service, set(done), set(disc), expired]
         for x in seen:
             k = sum(1 for cl in classes if x in cl)
@@ -647,38 +771,68 @@ def oracle_pipe(c, obs):
                 break
         if len(done) != len(set(done)):
             fails.append(dict(clause="an item completes at most once", step=idx))
-        # counters agree with the ledger ("counted")
         if drp != len(refused) or acc != len(seen) - len(refused) or fin != len(done) or rej != len(disc) or depth != len(waiting):
             fails.append(dict(clause="counters agree with the ledger (accepted/dropped/completed/rejected/depth)", step=idx,
                               st=s["st"], ledger=[len(waiting), len(seen) - len(refused), len(refused), len(service), len(done), len(disc)]))
-        if len(service) > lim or act > lim:
-            fails.append(dict(clause="work in service never exceeds the concurrency limit", step=idx, in_service=len(service), limit=lim,
-                              mechanism="over-dispatch"))
         if act != len(service):
             fails.append(dict(clause="active counter equals the number of items in service", step=idx, active=act, in_service=len(service)))
-        # stranding: last handler step of this instant, an item waits, the worker has a free slot
         last_of_instant = idx + 1 == len(steps) or steps[idx + 1]["t"] > s["t"]
         if last_of_instant and depth > 0 and act < lim:
+            if act > 0:
+                mech = "strand-partial"
+            elif kind == "shift" and raised_while_waiting:
+                mech = "strand-capacity-raised"
+            else:
+                mech = "strand-idle"
             fails.append(dict(clause="no simulated time passes while an item waits and the worker has free capacity",
-                              step=idx, t=s["t"], depth=depth, active=act, limit=lim,
-                              mechanism="strand-idle" if act == 0 else "strand-partial",
+                              step=idx, t=s["t"], depth=depth, active=act, limit=lim, mechanism=mech,
                               what="item waits in the queue although the worker has a free slot: only the enqueue that finds the queue "
-                                   "empty notifies the driver, and the driver polls once per notify/completion"))
-        if fails:
-            break
-    if not fails:
-        if disc:
+                                   "empty notifies the driver, and the driver polls once per notify/completion"
+                              if mech == "strand-partial" else
+                              "items wait with an idle worker after the shift capacity was raised: nothing polls the queue when "
+                              "capacity becomes available"))
+    # one failure per (clause, mechanism), first occurrence
+    uniq, seen_k = [], set()
+    for f in fails:
+        k = (f["clause"], f.get("mechanism"))
+        if k not in seen_k:
+            seen_k.add(k)
+            uniq.append(f)
+    fails = uniq
+    if True:
+        if disc and kind == "server":
             fails.append(dict(clause="accepted work is never discarded (each offered item is rejected at admission, waiting, in service or completed)",
                               mechanism="overpoll-discard", items=disc,
                               what="item accepted by the queue, dequeued by a second poll while the first delivery was still in flight, "
                                    "then dropped by Server.handle_queued_event (requests_rejected) because acquire() failed"))
-        sink_ids = [g[1] for g in obs["sink"]]
-        if sorted(sink_ids) != sorted(done):
-            fails.append(dict(clause="each completed item reaches the downstream exactly once", sink=sink_ids, done=done))
-        left = sorted(set(offered) - set(seen))
-        if left:
-            fails.append(dict(clause="every arrival reaches the queue", missing=left))
-    return fails[:2]
+        if sorted(sink_out) != sorted(done):
+            fails.append(dict(clause="each completed item reaches the downstream exactly once", sink=sink_out, done=done))
+        if kind == "reneg" and last and sorted(reneged_out) != sorted(disc):
+            fails.append(dict(clause="each reneged item reaches the reneged target exactly once", got=reneged_out, reneged=disc))
+        if sorted(seen) != sorted(offered_in):
+            fails.append(dict(clause="every arrival reaches the queue exactly once", offered=offered_in, seen=seen))
+    return fails, done
+
+
+def oracle_pipe(c, obs):
+    c = _norm_case(c)
+    if obs["verdict"] != "ok":
+        return [dict(clause="the run terminates", verdict=obs["verdict"])]
+    offered = [a["item"]["id"] for a in c["arrivals"]]
+    all_steps = [pipe_steps(log) for log in obs["logs"]]
+    fails = []
+    n = len(c["stages"])
+    for i, (st, steps) in enumerate(zip(c["stages"], all_steps)):
+        if i + 1 < n:
+            out_ids = [s["label"][2]["id"] for s in all_steps[i + 1] if s["label"][0] == "arrive"]
+        else:
+            out_ids = [g[1] for g in obs["sink"]]
+        f, done = oracle_stage(st, steps, offered, out_ids, [g[1] for g in obs["reneged"]], n == 1)
+        for x in f:
+            x["stage"] = i
+        fails += f
+        offered = done
+    return fails[:4]
 
 
 def attribute_pipe(c, obs, f):
@@ -687,6 +841,12 @@ def attribute_pipe(c, obs, f):
         return "C08-overpoll-discard"
     if m == "strand-partial":
         return "C08-strand-partial-capacity"
+    if m == "strand-capacity-raised":
+        return "C08-strand-capacity-raised"
+    if m == "over-dispatch":
+        c = _norm_case(c)
+        if c["stages"][f.get("stage", 0)]["worker"] in ("shift", "reneg"):
+            return "C08-unguarded-over-dispatch"
     return None
 
 
@@ -696,17 +856,422 @@ def nontrivial_pipe(c, obs):
     return len(ts) != len(set(ts)) and len(hops) > 1
 
 
+def describe_pipe(c):
+    c = _norm_case(c)
+    return "+".join(f"{s['worker']}/{s['policy']['kind']}" for s in c["stages"]) + f",{c['mode']}"
+
+
+# --------------------------------------------------------------------------- industrial components
+def gen_ind(rng):
+    kind = rng.choice(["pooled", "pooled", "gate", "conveyor", "batch"])
+    times = rng.choice([[0], [0, 0, 5], [0, 5, 10, 10], [0, 1, 2, 3, 10], [0, 10, 20]])
+    n = rng.randint(1, 9)
+    arrivals = [dict(t=rng.choice(times), hops=rng.randint(0, 3), id=i) for i in range(n)]
+    c = dict(kind=kind, arrivals=arrivals, mode=rng.choice(["pre", "in"]))
+    if kind == "pooled":
+        c.update(size=rng.randint(1, 3), cap=rng.choice([0, 0, 1, 2]), cycle=rng.choice([0, 5, 10]))
+    elif kind == "gate":
+        bs = sorted(rng.sample([1, 2, 5, 10, 11, 20], rng.choice([2, 4])))
+        c.update(cap=rng.choice([0, 0, 1, 2, 3]), initially_open=rng.random() < 0.5,
+                 schedule=[[bs[i], bs[i + 1]] for i in range(0, len(bs), 2)])
+    elif kind == "conveyor":
+        c.update(cap=rng.choice([0, 1, 2, 3]), transit=rng.choice([0, 5, 10]))
+    else:
+        c.update(size=rng.randint(1, 4), process=rng.choice([0, 5]), timeout=rng.choice([0, 0, 3, 10]))
+    return c
+
+
+def impl_ind(c):
+    from collections.abc import Generator
+
+    from happysimulator.components.industrial.batch_processor import BatchProcessor
+    from happysimulator.components.industrial.conveyor import ConveyorBelt
+    from happysimulator.components.industrial.gate_controller import GateController
+    from happysimulator.components.industrial.pooled_cycle import PooledCycleResource
+    from happysimulator.core.entity import Entity
+    from happysimulator.core.event import Event
+    from happysimulator.core.simulation import Simulation
+    from happysimulator.core.temporal import Instant
+    from hsverif.util import run_bounded
+
+    S = 10 ** 9   # times of the case are whole seconds (float-exact)
+
+    class Relay(Entity):
+        def __init__(self, name, nxt):
+            super().__init__(name)
+            self.nxt = nxt
+
+        def handle_event(self, e):
+            return [Event(time=self.now, event_type=e.event_type, target=self.nxt, context=e.context)]
+
+    class Sink(Entity):
+        def __init__(self):
+            super().__init__("sink")
+            self.got = []
+
+        def handle_event(self, e):
+            self.got.append([self.now.nanoseconds // S, e.context["metadata"]["id"]])
+
+    def mk_event(a, heads):
+        return Event(time=Instant(a["t"] * S), event_type="req", target=heads[a["hops"]], context={"metadata": {"id": a["id"]}})
+
+    class Injector(Entity):
+        def __init__(self, arrivals, heads):
+            super().__init__("inj")
+            self.arr, self.heads = arrivals, heads
+
+        def handle_event(self, e):
+            return [mk_event(a, self.heads) for a in self.arr]
+
+    sink = Sink()
+    k = c["kind"]
+    if k == "pooled":
+        res = PooledCycleResource("res", pool_size=c["size"], cycle_time=float(c["cycle"]), downstream=sink, queue_capacity=c["cap"])
+    elif k == "gate":
+        res = GateController("res", downstream=sink, schedule=[(float(a), float(b)) for a, b in c["schedule"]],
+                             initially_open=c["initially_open"], queue_capacity=c["cap"])
+    elif k == "conveyor":
+        res = ConveyorBelt("res", downstream=sink, transit_time=float(c["transit"]), capacity=c["cap"])
+    else:
+        res = BatchProcessor("res", downstream=sink, batch_size=c["size"], process_time=float(c["process"]), timeout_s=float(c["timeout"]))
+
+    def xid(ev):
+        return ev.context["metadata"]["id"]
+
+    def snap():
+        if k == "pooled":
+            return [[res._available, res._active, res._completed, res._rejected], [xid(e) for e in res._queue]]
+        if k == "gate":
+            st = res.stats
+            return [[1 if st.is_open else 0, st.passed_through, st.queued_while_closed, st.rejected, st.open_cycles],
+                    [xid(e) for e in res._queue]]
+        if k == "conveyor":
+            return [res._items_in_transit, res._items_transported, res._items_rejected]
+        return [[0 if res._timeout_event is None else 1, res._batches_processed, res._items_processed, res._timeouts],
+                [xid(e) for e in res._buffer]]
+
+    log = []
+    own = {}      # id(event) -> event, for events the component sent to itself
+    orig = res.handle_event
+
+    def now():
+        return res.now.nanoseconds // S
+
+    def outs_of(evs, batch=None):
+        out = []
+        for e in evs or []:
+            if e.target is res:
+                own[id(e)] = e
+                out.append(["timeout"] if e.event_type == "_BatchTimeout" else ["retry", xid(e)])
+            elif e.target is sink:
+                out.append(["fwd", xid(e)])
+            else:
+                out.append(["other", e.event_type])
+        return out
+
+    def logged(ev):
+        et = ev.event_type
+        if et in ("_GateOpen", "_GateClose"):
+            kind_in = ["open"] if et == "_GateOpen" else ["close"]
+        elif et == "_BatchTimeout":
+            kind_in = ["timeout"]
+        elif id(ev) in own:
+            kind_in = ["retry", xid(ev)]
+        else:
+            kind_in = ["arrive", xid(ev)]
+        had_timeout = getattr(res, "_timeout_event", None)
+        buf_before = [xid(e) for e in getattr(res, "_buffer", [])]
+        g = orig(ev)
+        if not isinstance(g, Generator):
+            log.append(dict(t=now(), i=kind_in, out=outs_of(g), snap=snap()))
+            return g
+
+        def wrap():
+            sent, seg = None, 0
+            tag = None
+            while True:
+                try:
+                    y = g.send(sent)
+                except StopIteration as s:
+                    if seg == 0:
+                        log.append(dict(t=now(), i=kind_in, out=outs_of(s.value), snap=snap()))
+                    else:
+                        log.append(dict(t=now(), i=["resume", tag], out=outs_of(s.value), snap=snap()))
+                    return s.value
+                if k == "batch":
+                    batch = buf_before + ([xid(ev)] if kind_in[0] == "arrive" else [])
+                    tag = batch
+                    o = ([["cancel"]] if had_timeout is not None and had_timeout.cancelled and kind_in[0] == "arrive" else []) + [["cont", batch]]
+                else:
+                    tag = xid(ev)
+                    o = [["cont", tag]]
+                log.append(dict(t=now(), i=kind_in, out=o, snap=snap(), delay=y))
+                sent = yield y
+                seg += 1
+        return wrap()
+
+    res.handle_event = logged
+    heads = {0: res}
+    ents = [res, sink]
+    prev = res
+    for h in range(1, 4):
+        r = Relay(f"r{h}", prev)
+        heads[h] = r
+        ents.append(r)
+        prev = r
+    inj = Injector(c["arrivals"], heads)
+    ents.append(inj)
+    sim = Simulation(entities=ents, end_time=Instant(END_NS))
+    if k == "gate":
+        sim.schedule(res.start_events())
+    if c["mode"] == "pre":
+        for a in c["arrivals"]:
+            sim.schedule(mk_event(a, heads))
+    else:
+        sim.schedule(Event(time=Instant(0), event_type="kick", target=inj))
+    _, verdict = run_bounded(sim, wall_s=20.0)
+    return dict(log=log, sink=sink.got, verdict=verdict, final=snap())
+
+
+def encode_ind(c, obs):
+    k = c["kind"]
+    tr = []
+    for e in obs["log"]:
+        i, out = e["i"], e["out"]
+        if k == "pooled":
+            lab = {"arrive": lambda: Ctor("CArrive", i[1]), "retry": lambda: Ctor("CFire", Ctor("CRetry", i[1])),
+                   "resume": lambda: Ctor("CFire", Ctor("CCont", i[1]))}[i[0]]()
+            o = []
+            for x in out:
+                if x[0] == "cont":
+                    o.append(Ctor("CCont", x[1]))
+                elif x[0] == "retry":
+                    o.append(Ctor("CRetry", x[1]))
+                elif x[0] != "fwd":
+                    raise ValueError(f"unexpected output {x}")
+            tr.append((lab, o, (e["snap"][0], e["snap"][1])))
+        elif k == "gate":
+            lab = {"arrive": lambda: Ctor("GArr", i[1]), "open": lambda: Raw("GOpen"), "close": lambda: Raw("GClose")}[i[0]]()
+            o = []
+            for x in out:
+                if x[0] != "fwd":
+                    raise ValueError(f"unexpected output {x}")
+                o.append(x[1])
+            tr.append((lab, o, (e["snap"][0], e["snap"][1])))
+        elif k == "conveyor":
+            lab = {"arrive": lambda: Ctor("VArr", i[1]), "resume": lambda: Ctor("VRes", i[1])}[i[0]]()
+            o = []
+            for x in out:
+                if x[0] == "cont":
+                    o.append(Ctor("inl", x[1]))
+                elif x[0] == "fwd":
+                    o.append(Ctor("inr", x[1]))
+                else:
+                    raise ValueError(f"unexpected output {x}")
+            tr.append((lab, o, e["snap"]))
+        else:
+            lab = {"arrive": lambda: Ctor("BArr", i[1]), "timeout": lambda: Raw("BFireTimeout"),
+                   "resume": lambda: Ctor("BRes", i[1])}[i[0]]()
+            o = []
+            for x in out:
+                if x[0] == "timeout":
+                    o.append(Ctor("BSched", Raw("BTimeout")))
+                elif x[0] == "cancel":
+                    o.append(Raw("BCancel"))
+                elif x[0] == "cont":
+                    o.append(Ctor("BSched", Ctor("BCont", x[1])))
+                elif x[0] == "fwd":
+                    o.append(Ctor("BFwd", x[1]))
+                else:
+                    raise ValueError(f"unexpected output {x}")
+            tr.append((lab, o, (e["snap"][0], e["snap"][1])))
+    if k == "pooled":
+        return term(Ctor("IPooled", c["size"], c["cap"], tr))
+    if k == "gate":
+        return term(Ctor("IGate", c["cap"], c["initially_open"], tr))
+    if k == "conveyor":
+        return term(Ctor("IConv", c["cap"], tr))
+    return term(Ctor("IBatch", c["size"], c["timeout"] > 0, tr))
+
+
+def oracle_ind(c, obs):
+    """C08 for the self-contained industrial components, on the implementation's run."""
+    if obs["verdict"] != "ok":
+        return [dict(clause="the run terminates", verdict=obs["verdict"])]
+    k = c["kind"]
+    log = obs["log"]
+    fails = []
+    offered = sorted(a["id"] for a in c["arrivals"])
+    seen = sorted(e["i"][1] for e in log if e["i"][0] == "arrive")
+    if seen != offered:
+        fails.append(dict(clause="every arrival reaches the component exactly once", offered=offered, seen=seen))
+    sink_ids = [g[1] for g in obs["sink"]]
+    if len(sink_ids) != len(set(sink_ids)):
+        fails.append(dict(clause="an item completes at most once", sink=sink_ids))
+    first_seen = {}
+    if k == "pooled":
+        waiting, service, done, rejected = [], set(), [], []
+        for idx, e in enumerate(log):
+            i = e["i"]
+            (avail, act, comp, rej), q = e["snap"]
+            if i[0] in ("arrive", "retry"):
+                x = i[1]
+                first_seen.setdefault(x, idx)
+                was_waiting = x in waiting
+                if was_waiting:
+                    waiting.remove(x)
+                if any(o[0] == "cont" for o in e["out"]):
+                    service.add(x)
+                    older = [y for y in waiting if first_seen[y] < first_seen[x]]
+                    if older:
+                        fails.append(dict(clause="items leave a queue in the order its policy defines (FIFO waiting line of the pool)",
+                                          mechanism="retry-loses-slot", item=x, overtaken=older, step=idx,
+                                          what="a dequeued item is re-emitted as a new event; a same-instant arrival processed before "
+                                               "that event takes the freed unit and is served before items that waited longer"))
+                elif x in q:
+                    waiting.append(x)
+                    if was_waiting and q[-1] == x and len(q) > 1:
+                        fails.append(dict(clause="items leave a queue in the order its policy defines (FIFO waiting line of the pool)",
+                                          mechanism="retry-loses-slot", item=x, step=idx,
+                                          what="a dequeued item whose re-emitted event found no unit is re-queued behind later arrivals"))
+                else:
+                    rejected.append(x)
+                    if was_waiting:
+                        fails.append(dict(clause="accepted work is never discarded (a queued item is rejected after it was dequeued)",
+                                          mechanism="retry-rejected", item=x, step=idx,
+                                          what="a dequeued item whose re-emitted event found no unit and a full queue is rejected"))
+            else:
+                service.discard(i[1])
+                done.append(i[1])
+                for o in e["out"]:
+                    if o[0] == "retry" and o[1] not in waiting:
+                        fails.append(dict(clause="pool re-emits an item that is not waiting", step=idx))
+            if act > c["size"] or avail + act != c["size"] or avail < 0:
+                fails.append(dict(clause="work in service never exceeds the concurrency limit (pool units)", step=idx, snap=e["snap"]))
+            if act != len(service) or comp != len(done) or rej != len(rejected):
+                fails.append(dict(clause="counters agree with the ledger (pool)", step=idx, snap=e["snap"]))
+            inflight = [y for y in waiting if y not in q]
+            last = idx + 1 == len(log) or log[idx + 1]["t"] > e["t"]
+            if last and (q or inflight) and avail > 0:
+                fails.append(dict(clause="no simulated time passes while an item waits and the worker has free capacity (pool)",
+                                  step=idx, snap=e["snap"]))
+        if sorted(done) != sorted(sink_ids):
+            fails.append(dict(clause="each completed item reaches the downstream exactly once", done=done, sink=sink_ids))
+        if sorted(done + rejected + list(service) + waiting) != offered and seen == offered:
+            fails.append(dict(clause="each offered item is exactly one of rejected-and-counted, waiting, in service, completed (pool)"))
+    elif k == "gate":
+        q, passed, rejected = [], [], []
+        for idx, e in enumerate(log):
+            i = e["i"]
+            cs, qs = e["snap"]
+            fwd = [o[1] for o in e["out"] if o[0] == "fwd"]
+            if i[0] == "arrive":
+                x = i[1]
+                if fwd == [x]:
+                    passed.append(x)
+                    if q:
+                        fails.append(dict(clause="items leave the gate queue in FIFO order (arrival passes while others are queued)", step=idx))
+                elif x in qs:
+                    q.append(x)
+                else:
+                    rejected.append(x)
+            elif i[0] == "open":
+                if fwd != (q if fwd else fwd):
+                    fails.append(dict(clause="items leave the gate queue in FIFO order", step=idx, flushed=fwd, queued=q))
+                if fwd:
+                    passed += fwd
+                    q = []
+            if qs != q:
+                fails.append(dict(clause="gate queue holds exactly the items that are waiting", step=idx, q=qs, expected=q))
+            if c["cap"] > 0 and len(qs) > c["cap"]:
+                fails.append(dict(clause="a queue never holds more than its capacity (gate)", step=idx))
+            if cs[1] != len(passed) or cs[3] != len(rejected):
+                fails.append(dict(clause="counters agree with the ledger (gate)", step=idx))
+            if cs[0] == 1 and qs:
+                fails.append(dict(clause="no simulated time passes while an item waits and the gate is open", step=idx))
+        if passed != sink_ids:
+            fails.append(dict(clause="each passed item reaches the downstream exactly once, in order", passed=passed, sink=sink_ids))
+        if sorted(passed + q + rejected) != offered and seen == offered:
+            fails.append(dict(clause="each offered item is exactly one of rejected-and-counted, waiting, passed (gate)"))
+    elif k == "conveyor":
+        transit, done, rejected = set(), [], []
+        for idx, e in enumerate(log):
+            i = e["i"]
+            tr_n, dn, rj = e["snap"]
+            if i[0] == "arrive":
+                if any(o[0] == "cont" for o in e["out"]):
+                    transit.add(i[1])
+                else:
+                    rejected.append(i[1])
+            else:
+                transit.discard(i[1])
+                done.append(i[1])
+            if c["cap"] > 0 and tr_n > c["cap"]:
+                fails.append(dict(clause="work in service never exceeds the concurrency limit (conveyor capacity)", step=idx))
+            if tr_n != len(transit) or dn != len(done) or rj != len(rejected):
+                fails.append(dict(clause="counters agree with the ledger (conveyor)", step=idx))
+        if sorted(done) != sorted(sink_ids):
+            fails.append(dict(clause="each transported item reaches the downstream exactly once", done=done, sink=sink_ids))
+        if sorted(done + rejected + list(transit)) != offered and seen == offered:
+            fails.append(dict(clause="each offered item is exactly one of rejected-and-counted, in transit, transported (conveyor)"))
+    else:
+        buf, inb, done = [], [], []
+        for idx, e in enumerate(log):
+            i = e["i"]
+            cs, bs = e["snap"]
+            if i[0] == "arrive":
+                buf.append(i[1])
+            for o in e["out"]:
+                if o[0] == "cont":
+                    inb += o[1]
+                    buf = [x for x in buf if x not in o[1]]
+                elif o[0] == "fwd":
+                    done.append(o[1])
+                    if o[1] in inb:
+                        inb.remove(o[1])
+            if bs != buf:
+                fails.append(dict(clause="batch buffer holds exactly the items that are waiting", step=idx, buf=bs, expected=buf))
+            last = idx + 1 == len(log) or log[idx + 1]["t"] > e["t"]
+            if last and len(bs) >= c["size"]:
+                fails.append(dict(clause="no simulated time passes while a full batch waits", step=idx, mechanism="full-batch-waits-for-timeout",
+                                  what="BatchProcessor.handle_event schedules the timeout and returns before checking whether the batch is full",
+                                  buffered=len(bs), size=c["size"]))
+        if sorted(done) != sorted(sink_ids):
+            fails.append(dict(clause="each processed item reaches the downstream exactly once", done=done, sink=sink_ids))
+        if sorted(done + buf + inb) != offered and seen == offered:
+            fails.append(dict(clause="each offered item is exactly one of buffered, in a batch being processed, forwarded (batch)"))
+    uniq, seen_k = [], set()
+    for f in fails:
+        kk = (f["clause"], f.get("mechanism"))
+        if kk not in seen_k:
+            seen_k.add(kk)
+            uniq.append(f)
+    return uniq[:4]
+
+
+def attribute_ind(c, obs, f):
+    m = f.get("mechanism")
+    if m in ("retry-loses-slot", "retry-rejected") and c["kind"] == "pooled":
+        return "C08-pooled-retry-loses-slot"
+    if m == "full-batch-waits-for-timeout" and c["kind"] == "batch":
+        return "C08-batch-full-waits"
+    return None
+
+
 # --------------------------------------------------------------------------- families
 POLICY_T = "pol * list pop_op * list (pobs * psnap)"
-PIPE_T = "wkind * pol * Z * list (wlabel * list pev * wsnap * psnap)"
+PIPE_T = "list (wkind * pol * Z * list (wlabel * list pev * wsnap * psnap))"
 
 FAMILIES = [
     Family("policy", IMPORTS, "ok_policy", POLICY_T, gen_policy, impl_policy, encode_policy, oracle_policy,
            nontrivial=lambda c, o: any(x[0] == "pop" for x in c["ops"]),
            describe=lambda c: c["policy"]["kind"]),
-    Family("pipeline", IMPORTS, "ok_pipeline", PIPE_T, gen_pipe, impl_pipe, encode_pipe, oracle_pipe,
+    Family("pipeline", IMPORTS, "ok_pipelines", PIPE_T, gen_pipe, impl_pipe, encode_pipe, oracle_pipe,
            nontrivial=nontrivial_pipe, attribute=attribute_pipe, parallel=True,
-           describe=lambda c: f"{c['policy']['kind']},limit={c['limit']},{c['mode']}"),
+           describe=describe_pipe),
+    Family("industrial", "From HS Require Import Base.Prelude C08.Model C08.IndModel.", "ok_ind", "icase", gen_ind, impl_ind,
+           encode_ind, oracle_ind, nontrivial=lambda c, o: len({a["t"] for a in c["arrivals"]}) < len(c["arrivals"]),
+           attribute=attribute_ind, parallel=True, describe=lambda c: c["kind"]),
 ]
 
 TRUSTED = [
@@ -720,11 +1285,12 @@ TRUSTED = [
 
 
 def run(ctx):
-    ctx.prove(["C08/Model.v", "C08/Policies.v", "C08/Pipeline.v", "C08/Props.v"], allowed_axioms=(), trusted_base=TRUSTED)
-    stats = [
-        run_family(ctx, FAMILIES[0], ctx.n(400, 8000)),
-        run_family(ctx, FAMILIES[1], ctx.n(400, 8000)),
-    ]
+    ctx.prove(COQ_FILES, allowed_axioms=(), trusted_base=TRUSTED)
+    stats = []
+    for fam, n in ((FAMILIES[0], ctx.n(400, 8000)), (FAMILIES[1], ctx.n(400, 8000)), (FAMILIES[2], ctx.n(300, 6000))):
+        stats.append(run_family(ctx, fam, n))
+        ctx.log(f"family {fam.name}: {stats[-1]['cases']} cases, mismatches={stats[-1]['mismatches']}, "
+                f"oracle failures={stats[-1]['oracle_failures']} (known {stats[-1]['known']})")
     merge_stats(ctx, stats, "policy: random push/pop sequences over 7 policy kinds with small capacities, deadlines around the clock, "
                             "4 flows; pipeline: bursts at equal nanoseconds through relay chains of 0-4 hops into a Server with "
                             "concurrency 1-3, service times from {0,1,5,10} ns, arrivals scheduled before run() or created inside it; "
